@@ -206,7 +206,7 @@ func (g *G) genStep(cfg *MachineCfg, kind string) *world.Step {
 	case "restart":
 		return &world.Step{Kind: "restart"}
 	case "export":
-		return &world.Step{Kind: "export_import"}
+		return &world.Step{Kind: "export_import", ZeroHeight: g.chance("zero-height", 25)}
 	}
 	panic("unknown step kind " + kind)
 }
